@@ -1,0 +1,13 @@
+//go:build !verif
+
+package parse
+
+import "context"
+
+// Verification hooks (see verif_on.go). With the `verif` build tag off they are empty
+// and compile to nothing.
+
+func verifEnter(context.Context, string, int) uint64                  { return 0 }
+func verifEvent(uint64, string, string, int, int)                     {}
+func verifSpawn(ctx context.Context, _ uint64, _ int) context.Context { return ctx }
+func verifAfterWalk(*TreeShapeListener, string)                       {}
